@@ -275,10 +275,12 @@ Fixpoint kf_path (t : list N) (P : list (list N)) (B : list N) : list (list N) :
 Definition kf_last_wdl (P : list (list N)) : bool := match rev P with s :: _ => k_wdl s | [] => false end.
 Definition kf_pref (B : list N) : bool :=
   match B with a :: b :: _ => is_alpha a && ((b =? 58) || (b =? 124)) | _ => false end.
-(* no ".." on a drive-letter-shaped last segment (F-C01-5/9); no drive letter as the first segment of a URL
-   with a host (F-C01-1) *)
+(* the only segment is a normalized drive letter: ".." pops it on neither side *)
+Definition kf_sole (P : list (list N)) : bool := match P with [p0] => is_normalized_wdl p0 | _ => false end.
+(* no ".." on a drive-letter-shaped last segment (F-C01-5/9) - unless it is the sole segment and a normalized drive
+   letter -; no drive letter as the first segment of a URL with a host (F-C01-1) *)
 Definition kf_fin_ok (hh : bool) (P : list (list N)) (B : list N) : bool :=
-  negb (is_double_dot B && kf_last_wdl P) && negb (hh && k_nil P && is_wdl B).
+  negb (is_double_dot B && kf_last_wdl P && negb (kf_sole P)) && negb (hh && k_nil P && is_wdl B).
 (* ... and the first segment does not go on after a drive-letter prefix (F-C01-7) *)
 Fixpoint kf_path_ok (hh : bool) (t : list N) (P : list (list N)) (B : list N) : bool :=
   match t with
